@@ -105,11 +105,27 @@ def engine_scenario(sh: Shard, seed, idx):
             def handle(self, a, b):
                 pass
 
+        class BadMsg(GeckoUdpProtocolHandler):
+            """a queued send that raises when the engine tries to transmit it"""
+
+            def can_handle(self, a, b):
+                return False
+
+            def handle(self, a, b):
+                pass
+
         s.run_until(lambda: not sock._send_handlers, 5)
         base = len(sock._socket.sent)
         queued = []
         for k in range(r.randrange(2, 40)):
             b = b"M%d" % k
+            if r.random() < 0.12:
+                # send_bytes raises NotImplementedError / destination is None: must be dropped
+                if r.random() < 0.5:
+                    sock.queue_send(BadMsg(), peer.addr)
+                else:
+                    sock.queue_send(Msg(b"never"), None)
+                sh.count("raising_sends_queued")
             sock.queue_send(Msg(b), peer.addr)
             queued.append(b)
             if r.random() < 0.3:
@@ -422,6 +438,7 @@ def main(tier, seed):
     run.need(run.counters.get("unanswered_requests_ok", 0) + run.counters.get("answered_requests_ok", 0) > 50, "too few request lifetimes observed")
     run.need(run.counters.get("handshakes_completed", 0) > 30, "too few handshakes completed")
     run.need(run.counters.get("line_events_injected", 0) > 5000, "stress: yield injection saw too few line events")
+    run.need(run.counters.get("raising_sends_queued", 0) > 10, "no raising send was queued")
     run.need(run.counters.get("send_batches_with_incoming_flood", 0) > 10, "no send batch was paced against an incoming flood")
     run.extra["handshake_loss_scripts"] = len(scripts)
     return run.finish(
